@@ -264,7 +264,22 @@ class Matcher:
                 return r
 
             return rep(0, i)
+        if op in (C.ASSERT, C.ASSERT_NOT):
+            direction, sub = av
+            if direction != 1:
+                raise Unsupported("look-behind assertion")
+            # look-ahead: does the sub-pattern match at i (any way)?  the main match then continues from i itself
+            ok_sub, _ = self.seq(self._t(sub), 0, i, _Cont(lambda j: (z3.BoolVal(True), z3.IntVal(j))))
+            ok, end = nxt(i)
+            return (z3.And(ok_sub if op is C.ASSERT else z3.Not(ok_sub), ok), end)
         if op is C.AT:
+            if av is C.AT_END or av is C.AT_END_STRING:
+                # '$' (without MULTILINE): at the end, or just before a final newline
+                at_end = z3.Or(s.n == i, z3.And(s.n == i + 1, s.c[i] == 10)) if i < s.lmax else (s.n == i)
+                if av is C.AT_END_STRING:
+                    at_end = s.n == i
+                ok, end = nxt(i)
+                return (z3.And(at_end, ok), end)
             if av is C.AT_BOUNDARY:
                 prev = is_word(s.c[i - 1]) if i >= 1 else z3.BoolVal(False)
                 cur = z3.And(i < s.n, is_word(s.c[i])) if i < s.lmax else z3.BoolVal(False)
